@@ -31,9 +31,9 @@ def _one(repo, idx):
 
 def _run(repo):
     res = [_one(repo, idx) for idx in range(len(tf.ARB))]
-    # None is swallowed by TcpConnection itself (indistinguishable from "no frame"); ['status', ...] is a well-formed
-    # known utility command: both legitimately leave the connection open
-    legit_open = ("None", repr(["status", "x"]))
+    # ['status', ...] is a well-formed known utility command: it legitimately leaves the connection open (None is an
+    # ordinary value since D75: it names nobody, the connection is closed)
+    legit_open = (repr(["status", "x"]),)
     bad = [x for x in res if x["raised"] or x["delivered"] or
            (x["value"] not in legit_open and (x["still_unknown"] or x["state"] != 0))]
     return res, bad
